@@ -78,14 +78,22 @@ type echScn struct {
 	NRetry  int    `json:"nretry"` // rejecting server: number of its configs flagged SendAsRetry (it has one more that is not)
 	Cert    string `json:"cert"`   // sn | pub | both | neither : names the server's certificate is valid for
 	MinVer  int    `json:"minver"` // client Config.MinVersion (0 = unset)
+	// shape of the client's ECHConfigList around the config built from the fields above:
+	// single | two_usable (followed by another usable config with another key and config_id) |
+	// usable_skipped (followed by an entry of an unknown version and one with an unsupported KEM) | skipped_usable (preceded by those)
+	Shape string `json:"shape"`
 }
 
 func marshalECHConfig(id uint8, pub []byte, publicName string, maxLen uint8, aead uint16) []byte {
+	return marshalECHConfigKEM(id, 0x0020, pub, publicName, maxLen, aead) // DHKEM(X25519, HKDF-SHA256)
+}
+
+func marshalECHConfigKEM(id uint8, kem uint16, pub []byte, publicName string, maxLen uint8, aead uint16) []byte {
 	b := cryptobyte.NewBuilder(nil)
 	b.AddUint16(0xfe0d)
 	b.AddUint16LengthPrefixed(func(b *cryptobyte.Builder) {
 		b.AddUint8(id)
-		b.AddUint16(0x0020) // DHKEM(X25519, HKDF-SHA256)
+		b.AddUint16(kem)
 		b.AddUint16LengthPrefixed(func(b *cryptobyte.Builder) { b.AddBytes(pub) })
 		b.AddUint16LengthPrefixed(func(b *cryptobyte.Builder) {
 			b.AddUint16(0x0001) // HKDF-SHA256
@@ -184,7 +192,30 @@ func runECH(s *echScn, raw json.RawMessage, store *certStore) []map[string]any {
 		return fail(err)
 	}
 	cfg := marshalECHConfig(uint8(s.CfgID), key.PublicKey().Bytes(), pubname, uint8(s.MaxLen), uint16(s.AEAD))
-	list := configList(cfg)
+	// entries around it
+	unknownVersion := []byte{0xfe, 0x0a, 0, 10, 1, 2, 3, 4, 5, 6, 7, 8, 9, 10}
+	p256, err := ecdh.P256().GenerateKey(rand.Reader)
+	if err != nil {
+		return fail(err)
+	}
+	badKEM := marshalECHConfigKEM(uint8(s.CfgID+50), 0x0010, p256.PublicKey().Bytes(), pubname, uint8(s.MaxLen), uint16(s.AEAD)) // DHKEM(P-256): not implemented
+	var list []byte
+	switch s.Shape {
+	case "", "single":
+		list = configList(cfg)
+	case "two_usable":
+		k2, err := ecdh.X25519().GenerateKey(rand.Reader)
+		if err != nil {
+			return fail(err)
+		}
+		list = configList(cfg, marshalECHConfig(uint8(s.CfgID+100), k2.PublicKey().Bytes(), pubname, uint8(s.MaxLen), uint16(s.AEAD)))
+	case "usable_skipped":
+		list = configList(cfg, unknownVersion, badKEM)
+	case "skipped_usable":
+		list = configList(unknownVersion, badKEM, cfg)
+	default:
+		return fail(fmt.Errorf("unknown list shape %q", s.Shape))
+	}
 
 	// the server
 	var names []string
